@@ -296,6 +296,7 @@ type linCtx struct {
 	elemFacts map[string][]cons
 	// values that are loads of an element of a slice with facts: atom -> slice key
 	elemAtoms map[string]string
+	elemVals  map[string]ssa.Value // atom of an element load -> the slice value it was loaded from
 	// extra facts attached to atoms (Intn results, induction …)
 	atomFacts map[string][]cons
 	depth     int
@@ -304,7 +305,7 @@ type linCtx struct {
 
 func newLinCtx(c *Ctx, fn *ssa.Function) *linCtx {
 	return &linCtx{c: c, fn: fn, memo: map[ssa.Value]lin{}, elemFacts: map[string][]cons{},
-		elemAtoms: map[string]string{}, atomFacts: map[string][]cons{}}
+		elemAtoms: map[string]string{}, elemVals: map[string]ssa.Value{}, atomFacts: map[string][]cons{}}
 }
 
 func isIntType(t types.Type) bool {
@@ -732,6 +733,7 @@ func (lc *linCtx) of1(v ssa.Value) lin {
 				// element load: unique atom + element facts of the container
 				atom := v.Name() + "@" + shortFn(v)
 				lc.elemAtoms[atom] = lc.sliceKey(ia.X)
+				lc.elemVals[atom] = ia.X
 				return linAtom(atom)
 			}
 			if _, ok := x.X.(*ssa.Alloc); ok {
@@ -1106,7 +1108,11 @@ func (lc *linCtx) factsFor(forms []lin, byName map[string]ssa.Value) []cons {
 			add = append(add, consLE(linConst(0), linAtom(a), a+" >= 0"))
 		}
 		if sk, ok := lc.elemAtoms[a]; ok {
-			for _, ef := range lc.elemFacts[sk] {
+			efs := lc.elemFacts[sk]
+			if len(efs) == 0 {
+				efs = lc.elemFactsOf(lc.elemVals[a], map[ssa.Value]bool{})
+			}
+			for _, ef := range efs {
 				// instantiate ELEM := a
 				e := ef.e.clone()
 				if k, ok := e.t["ELEM"]; ok {
@@ -1133,6 +1139,46 @@ func valueIndexCached(lc *linCtx) map[string]ssa.Value {
 		lc.vi = valueIndex(lc.fn)
 	}
 	return lc.vi
+}
+
+// elemFactsOf: facts that hold for every element of the slice value v:
+// a re-slice keeps the element set of its operand, a φ keeps the facts common
+// to all its inputs.
+func (lc *linCtx) elemFactsOf(v ssa.Value, seen map[ssa.Value]bool) []cons {
+	if v == nil || seen[v] {
+		return nil
+	}
+	seen[v] = true
+	if fs := lc.elemFacts[lc.sliceKey(v)]; len(fs) > 0 {
+		return fs
+	}
+	switch x := v.(type) {
+	case *ssa.Slice:
+		return lc.elemFactsOf(x.X, seen)
+	case *ssa.ChangeType:
+		return lc.elemFactsOf(x.X, seen)
+	case *ssa.Phi:
+		var common []cons
+		for i, e := range x.Edges {
+			fs := lc.elemFactsOf(e, seen)
+			if i == 0 {
+				common = fs
+				continue
+			}
+			var keep []cons
+			for _, c := range common {
+				for _, d := range fs {
+					if c.e.equal(d.e) {
+						keep = append(keep, c)
+						break
+					}
+				}
+			}
+			common = keep
+		}
+		return common
+	}
+	return nil
 }
 
 // valueIndex maps atom names of SSA registers to their values (for induction).
